@@ -413,6 +413,22 @@ pub fn scenarios() -> Vec<(&'static str, Op)> {
             // the epoll fd is private: identify it as "the one new descriptor"
             Held::of(vec![-1], d)
         }),
+        ("EpollDriver register + modify + wait + unregister", |e| {
+            use rusl::platform::{EpollEvent, EpollEventMask};
+            use tiny_std::linux::epoll::EpollTimeout;
+            let d = ok_or_none!(tiny_std::linux::epoll::EpollDriver::create(false));
+            // watching, re-arming and forgetting a descriptor of the caller's changes nothing in the table,
+            // whichever of the calls fails
+            let fd = rusl::platform::NonNegativeI32::try_new(e.unix_listener_fd).unwrap();
+            let _ = d.register(fd, 7, EpollEventMask::EPOLLIN);
+            let _ = d.modify(fd, 9, EpollEventMask::EPOLLIN | EpollEventMask::EPOLLOUT);
+            let mut evs = [EpollEvent::new(0, EpollEventMask::empty()); 4];
+            let _ = d.wait(&mut evs, EpollTimeout::NoWait);
+            let _ = d.wait(&mut evs, EpollTimeout::WaitMillis(u32::MAX));
+            let _ = d.unregister(fd);
+            let _ = d.unregister(fd);
+            Held::of(vec![-1], d)
+        }),
         ("getpwuid_r", |_e| {
             let mut buf = [0u8; 256];
             let _ = tiny_std::unix::passwd::getpw_r::getpwuid_r(0, &mut buf);
